@@ -1222,6 +1222,35 @@ func (in *Interp) callBuiltin(fr *frame, b *ssa.Builtin, args []Value, site *ssa
 		return in.doRecover(fr)
 	case "ssa:deferstack":
 		return nil
+	case "String": // unsafe.String(ptr *byte, len)
+		p := args[0].(*Ptr)
+		n := in.argInt(args[1])
+		if n == 0 {
+			return ""
+		}
+		if IsNilPtr(p) || len(p.path) == 0 {
+			panic(unsupported{"unsafe.String of non-array pointer"})
+		}
+		arr := walk(p.obj.v, p.path[:len(p.path)-1]).(*Array)
+		i0 := p.path[len(p.path)-1]
+		bs := make([]*Term, n)
+		for i := 0; i < n; i++ {
+			bs[i] = arr.E[i0+i].(*Term)
+		}
+		return in.mkStr(bs)
+	case "StringData": // unsafe.StringData(s) *byte
+		bs := in.strBytes(args[0])
+		if len(bs) == 0 {
+			return (*Ptr)(nil)
+		}
+		sl := in.mkByteSlice(bs)
+		return (&Ptr{obj: sl.arr}).sub(0)
+	case "SliceData":
+		sl := args[0].(Slice)
+		if sl.arr == nil {
+			return (*Ptr)(nil)
+		}
+		return (&Ptr{obj: sl.arr}).sub(sl.off)
 	case "ssa:wrapnilchk":
 		if p, ok := args[0].(*Ptr); ok && IsNilPtr(p) {
 			in.goPanic("value method called using nil pointer")
